@@ -92,9 +92,17 @@ def inputs(rnd, tier):
     ht, dt, tt, _ = gen.histories("T", 3)
     typed = [h for h in ht if len(h) == 3 and any(x["cls"] == "in" for x in h)]
     dist, trans = dist + dm + df + dt, trans + tm + tf + tt
+    def tx(cls, typ, day, amt, price):
+        return {"cls": cls, "type": typ, "t": day * 86400 + 43200, "off": 0, "a1": 11, "a2": 0, "amt": amt, "fee": 0, "price": price, "ffee": 0, "vin": -1, "vwf": -1, "vout": -1, "vfee": -1, "par": 0}
+
+    def many_lots(k):
+        # one disposal split over k lots: far more gain / loss rows than transactions
+        return [tx("in", "buy", 10 + 5 * i, 1, 1 + i % 3) for i in range(k)] + [tx("out", "sell", 400, k, 3)]
+
     n = 2 if tier == "quick" else 8
     res = []
-    for _ in range(n):
+    for i in range(n):
+        res.append(("many_lots", {"B1": many_lots(30 + 30 * (i % 2)), "B2": rnd.choice(full)}))
         res.append(("joint_filing", {"B1": rnd.choice(joint or full), "B2": rnd.choice(joint or full)}))
         res.append(("crypto_fees_and_types", {"B1": rnd.choice(feey or full), "B2": rnd.choice(typed or full)}))
         res.append(("single", {"B1": rnd.choice(mixed or full)}))
@@ -173,7 +181,8 @@ def apply_fault(job, fault, rnd):
         elif fault == "config_not_ini":
             text = "\n".join(l for l in text.splitlines() if not l.startswith("[")) + "\n"       # no section header at all
         elif fault == "config_json":
-            text = json.dumps({"in_header": lay["in"], "out_header": lay["out"], "intra_header": lay["intra"], "assets": sorted(job["assets"]), "exchanges": ["Exa"], "holders": ["Hoa"]})
+            text = json.dumps({"in_header": lay["in"], "out_header": lay["out"], "intra_header": lay["intra"], "assets": sorted(job["assets"]), "exchanges": ["Exa"], "holders": ["Hoa"],
+                               "generators": ["open_positions", "rp2_full_report"]})
         job["ini_text"] = text
     elif fault == "input_not_a_spreadsheet":
         job["corrupt_input"] = True
@@ -405,6 +414,8 @@ def run_c18(tier):
         for n, t in enumerate(rnd.sample(mine, 4 if q else 30)):
             job = make_run_job(t, ins[n % len(ins)][1], rnd, mode="exec")
             job["audit"] = True
+            if n % 4 == 2:
+                job["env"] = {"RP2_ENABLE_PROFILER": "1", "LOG_LEVEL": "DEBUG"}      # the switches rp2 reads from the environment
             if n % 2 == 1:
                 # the output directory already holds entries named like this run's reports: stale files, and symbolic links to files kept elsewhere
                 tag = (job.get("sched") and (job["sched"][0][1] if len(job["sched"]) == 1 else "mixed")) or job["args"].get("method") or "fifo"
